@@ -113,6 +113,14 @@ impl Wallet {
     pub async fn load(wallet: &mut Wallet, io: &(dyn InterfaceIO + Send + Sync)) {
         info!("loading wallet...");
         let result = io.load_wallet(wallet).await;
+        if let Err(error) = &result {
+            if error.kind() == ErrorKind::InvalidData {
+                // the file is there but does not hold a key pair (torn write, wrong file). going on with
+                // the fresh keys of this wallet would write them over the only copy of the private key
+                // the file may still hold
+                panic!("wallet file is present but cannot be read. not starting with new keys");
+            }
+        }
         if result.is_err() {
             warn!("loading wallet failed. saving new wallet");
             // TODO : check error code
@@ -168,17 +176,19 @@ impl Wallet {
 
     /// [private_key - 32 bytes]
     /// [public_key - 33 bytes]
-    pub fn deserialize_from_disk(&mut self, bytes: &[u8]) {
+    pub fn deserialize_from_disk(&mut self, bytes: &[u8]) -> Result<(), Error> {
         if bytes.len() < 65 {
-            // a truncated or torn wallet file: keep the current keys instead of aborting the node
+            // a truncated or torn wallet file: the keys of this wallet are left as they are and the
+            // caller is told, so that nothing is written over what the file still holds
             warn!(
                 "wallet data is too short to hold a key pair : {:?} bytes",
                 bytes.len()
             );
-            return;
+            return Err(Error::from(ErrorKind::InvalidData));
         }
         self.private_key = bytes[0..32].try_into().unwrap();
         self.public_key = bytes[32..65].try_into().unwrap();
+        Ok(())
     }
 
     pub fn on_chain_reorganization(
